@@ -100,13 +100,21 @@ def _cases(draw, tier):
         return {"kind": kind, "cfg": cfg, "keys": o["keys"], "vals": o["vals"], "n": draw(st.sampled_from([-4, -3, -2, -1, 0, 1, 2, 3, 4]))}
     cfg = draw(S.configs(1, 4, dweights=[1, 2, 2, 3, 3, 4]))
     d = len(cfg["sig"])
-    shape = draw(st.sampled_from(["vector", "blade"]))
+    shape = draw(st.sampled_from(["vector", "blade", "study", "study"]))
     if shape == "vector":
         idx = draw(st.lists(st.integers(0, d - 1), unique=True, min_size=1, max_size=d))
         keys = [1 << i for i in idx]
-    else:
+    elif shape == "blade":
         keys = [draw(st.integers(0, 2 ** d - 1))]
-    return {"kind": "norm", "cfg": cfg, "keys": keys, "vals": [draw(st.sampled_from(SMALL)) for _ in keys],
+    else:
+        # scalar + one blade, or two commuting blades: x*~x is a Study number (scalar + blade), often with a non-scalar part
+        k1 = draw(st.integers(1, 2 ** d - 1))
+        keys = [0, k1] if draw(st.booleans()) else [k1, (2 ** d - 1) ^ k1 if (2 ** d - 1) ^ k1 else k1]
+        keys = list(dict.fromkeys(keys))
+    vals = [draw(st.sampled_from(SMALL)) for _ in keys]
+    if shape == "study":
+        vals[0] = draw(st.sampled_from(["1", "1", "2", "-1", "3/2"]))      # normsq scalar part exactly 1 happens on purpose
+    return {"kind": "norm", "cfg": cfg, "keys": keys, "vals": vals, "type": draw(st.sampled_from(["float", "float", "int"])),
             "fn": draw(st.sampled_from(["norm", "normalized"]))}
 
 
@@ -308,9 +316,22 @@ def evaluate(case):
         keys, fvals = case["keys"], [frac(v) for v in case["vals"]]
         dx = dict(zip(keys, fvals))
         nsq = clean(Rr.normsq(dx))
-        if set(nsq) - {0} or nsq.get(0, 0) <= 0:
+        # domain: normsq is a Study number a + B with a > 0 and B a single blade squaring to a scalar (B^2 <= 0, or a >= 1.5|B|)
+        rest = {k: v for k, v in nsq.items() if k != 0}
+        a0 = nsq.get(0, 0)
+        okdom = a0 > 0 and len(rest) <= 1
+        if okdom and rest:
+            (bk, bv), = rest.items()
+            b2 = ref.T(bk, bk) * bv * bv
+            okdom = (b2 <= 0) or (a0 * a0 >= F(9, 4) * b2)
+        if okdom and rest and not kd.elem_equal(Rr.gp(nsq, dx), Rr.gp(dx, nsq))[0]:
+            okdom = False      # x / norm(x) has unit squared norm only when norm(x) (scalar + blade) commutes with x
+        if not okdom:
             return Info(False, labels + ["norm:out-of-domain"], None)
-        x = kd.mk(alg, keys, [float(v) for v in fvals])
+        if rest:
+            labels.append("norm:study-normsq")
+        asint = case.get("type") == "int" and all(v.denominator == 1 for v in fvals)
+        x = kd.mk(alg, keys, [int(v) for v in fvals] if asint else [float(v) for v in fvals])
         if case["fn"] == "norm":
             nrm = _call(lambda: x.norm(), "norm^2=normsq", "norm")
             sq = kd.to_dict(_call(lambda: nrm * nrm, "norm^2=normsq", "gp"))
@@ -318,11 +339,13 @@ def evaluate(case):
         else:
             u = _call(lambda: x.normalized(), "normalized-has-unit-normsq", "normalized")
             un = kd.to_dict(_call(lambda: u.normsq(), "normalized-has-unit-normsq", "normsq"))
-            _cmp(un, {0: F(1)}, "normalized-has-unit-normsq", "normalized", f"normalized(x).normsq() for x = {kd.show(dx)}")
-            # and it is a positive multiple of x
-            ud = kd.to_dict(u)
-            scale = math.sqrt(float(nsq[0]))
-            _cmp({k: v * scale for k, v in ud.items()}, dx, "normalized-has-unit-normsq", "normalized", "normalized(x) * |x| vs x")
+            _cmp(un, {0: F(1)}, "normalized-has-unit-normsq", "normalized", f"normalized(x).normsq() for x = {kd.show(dx)} (normsq(x) = {kd.show(nsq)})")
+            if not rest:
+                ud = kd.to_dict(u)
+                scale = math.sqrt(float(nsq[0]))
+                _cmp({k: v * scale for k, v in ud.items()}, dx, "normalized-has-unit-normsq", "normalized", "normalized(x) * |x| vs x")
+        if rest:
+            return Info(True, labels, case, counters)
         nontrivial = len(keys) >= 2
         # the identities hold for the CURRENT coefficients: change an array-valued multivector in place through the public
         # __setitem__ after norm()/normalized() has been called once, and ask again
